@@ -1,19 +1,19 @@
 (* C16 - executable model of schema / column persistence.  No proofs here.
 
-   orso/schema.py  FlatColumn.__init__ (153-217)              -> collect, norm_disposition, norm_element, norm_type,
+   orso/schema.py  FlatColumn.__init__ (153-225)              -> collect, norm_disposition, norm_element, norm_type,
                                                                  norm_decimal, norm_default, init
-                   RelationSchema.to_dict / from_dict (641-675) -> conv, to_dict_col, to_dict, from_dict
-                   FlatColumn.to_json / from_json (328-355)     -> json_of_pv, to_json, kwargs_of_json, from_json
-                   FlatColumn.to_flatcolumn (270-288)           -> to_flatcolumn
-                   RelationSchema.validate (677-725)            -> proj_col (the view Model/C05.v's validate works on)
-   orso/dataframe.py DataFrame.description (342-394)            -> describe
+                   RelationSchema.to_dict / from_dict (653-693) -> conv, to_dict_col, to_dict, from_dict
+                   FlatColumn.to_json / from_json (336-363)     -> json_of_pv, to_json, kwargs_of_json, from_json
+                   FlatColumn.to_flatcolumn (278-296)           -> to_flatcolumn
+                   RelationSchema.validate (695-743)            -> proj_col (the view Model/C05.v's validate works on)
+   orso/dataframe.py DataFrame.description (345-397)            -> describe
 
    A column object is its attribute dictionary: one dynamically typed value ([pv]) per declared dataclass
    field ([field]; the list of fields and their declared defaults is REGENERATED into Gen/C16_Fields.v and
    interpreted here; Props/C16.v checks that the regenerated list is the one modelled).  Keyword arguments,
    the dictionary written by to_dict and the object written by to_json are association lists over the same
    fields.  The re-parse of a type name is Model/C06.v's [from_name] (used on ASCII text only).  Two library
-   functions are parameters: [parse] (OrsoTypes.<m>.parse, i.e. C07) and [ser_ext] (what orjson.dumps with
+   functions are parameters: [parse] (OrsoTypes.<m>.parse with the length / precision / scale / element_type keywords, i.e. C07) and [ser_ext] (what orjson.dumps with
    to_json's default hook writes for a leaf value that JSON has no native form for).  The correspondence
    instantiates them with the results observed on the real functions ([parse_of], [ser_of]). *)
 From Coq Require Import List NArith ZArith Bool.
@@ -686,6 +686,8 @@ Definition patch_kw (p : kwargs) (k : kwargs) : kwargs :=
 (* what the harness observed for one column *)
 Record colobs := mkobs {
   o_fresh : str;                      (* the identity the constructor drew (used only when none was given) *)
+  o_ser : ser_table;                  (* orjson's output for this column's non-native leaf values (per column: the
+                                         harness identifies Decimals by value, their JSON text depends on the exponent) *)
   o_built : result column;            (* FlatColumn(double-star kwargs) *)
   o_json : result jval;               (* orjson.loads(c.to_json()) *)
   o_back : robs;                      (* FlatColumn.from_json(c.to_json()) *)
@@ -699,16 +701,17 @@ Definition odict : Type := (option pv * option pv * list kwargs * option pv * li
 (* observed from_dict(to_dict): the schema's own attributes and the columns relative to the built ones *)
 Definition oschema : Type := (pv * pv * list robs * pv * (pv * pv * pv * pv))%type.
 
-(* a schema case: tables, the schema's own attributes (name, aliases, primary key, four statistics), the columns'
+(* a schema case: parse table, the schema's own attributes (name, aliases, primary key, four statistics), the columns'
    keyword arguments with what was observed for each, the observed to_dict and the observed from_dict(to_dict) *)
 Definition c16_schema_case : Type :=
-  (parse_table * ser_table * (pv * pv * pv * pv * pv * pv * pv) * list (kwargs * colobs) * result odict * result oschema)%type.
+  (parse_table * (pv * pv * pv * pv * pv * pv * pv) * list (kwargs * colobs) * result odict * result oschema)%type.
 
 Definition built_ok (x : kwargs * colobs) : option column :=
   match o_built (snd x) with Ok c => Some c | Raise _ => None end.
 
-Definition col_check (P : str -> params -> pv -> result pv) (S : atom -> result jval) (x : kwargs * colobs) : bool :=
+Definition col_check (P : str -> params -> pv -> result pv) (x : kwargs * colobs) : bool :=
   let '(kw, o) := x in
+  let S := ser_of (o_ser o) in
   let b := init P class_flat (o_fresh o) kw in
   result_eqb column_eqb b (o_built o) &&
   match b with
@@ -756,11 +759,10 @@ Definition resolve_schema (cs : list column) (o : oschema) : result schema :=
   else Raise Unmodelled.
 
 Definition c16_schema_check (k : c16_schema_case) : bool :=
-  let '(pt, st, top, cols, od, orest) := k in
+  let '(pt, top, cols, od, orest) := k in
   let '(n, al, pk, rcm, rce, dsm, dse) := top in
   let P := parse_of pt in
-  let S := ser_of st in
-  forallb (col_check P S) cols &&
+  forallb (col_check P) cols &&
   match all_some (map built_ok cols) with
   | None => true                        (* some column could not be built: no schema to persist *)
   | Some cs =>
@@ -772,11 +774,11 @@ Definition c16_schema_check (k : c16_schema_case) : bool :=
   end.
 
 Definition c16_schema_show (k : c16_schema_case) :=
-  let '(pt, st, top, cols, od, orest) := k in
+  let '(pt, top, cols, od, orest) := k in
   let '(n, al, pk, rcm, rce, dsm, dse) := top in
   let P := parse_of pt in
-  let S := ser_of st in
   (map (fun x => let b := init P class_flat (o_fresh (snd x)) (fst x) in
+                 let S := ser_of (o_ser (snd x)) in
                  (b, bind b (to_json S), bind (bind b (to_json S)) (from_json P (o_fresh (snd x))),
                   bind b (to_flatcolumn P (o_fresh (snd x))), bind b describe)) cols,
    match all_some (map built_ok cols) with
